@@ -308,7 +308,7 @@ func errObs(err error, ilen int) []string {
 		kind int
 	}
 	var missing []miss
-	for _, d := range txtRegs {
+	for _, d := range txtRegsInCollectionOrder() {
 		switch {
 		case d.off+d.n <= ilen:
 		case d.off >= ilen:
@@ -335,5 +335,41 @@ func errObs(err error, ilen int) []string {
 		}
 		out = append(out, fmt.Sprintf("(%s, %d)", gal.Str2(id), kind))
 	}
+	return out
+}
+
+var txtOrderCache []txtReg
+
+// txtRegsInCollectionOrder: txtRegs in the order in which ReadTXTRegisters visits them, learnt once
+// from the collection it returns for a complete all-zero image (registers it does not return stay
+// behind, in table order).
+func txtRegsInCollectionOrder() []txtReg {
+	if txtOrderCache != nil {
+		return txtOrderCache
+	}
+	byID := map[string]txtReg{}
+	for _, d := range txtRegs {
+		byID[d.id] = d
+	}
+	var out []txtReg
+	seen := map[string]bool{}
+	gal.Recover(func() {
+		regs, _ := registers.ReadTXTRegisters(make([]byte, txtAreaEnd()))
+		for _, r := range regs {
+			if r == nil {
+				continue
+			}
+			if d, ok := byID[string(r.ID())]; ok && !seen[d.id] {
+				seen[d.id] = true
+				out = append(out, d)
+			}
+		}
+	})
+	for _, d := range txtRegs {
+		if !seen[d.id] {
+			out = append(out, d)
+		}
+	}
+	txtOrderCache = out
 	return out
 }
